@@ -55,6 +55,9 @@ def check(case):
 def enum_boundary(tier):
     for name, spec in boccases.boundary_specs(tier):
         yield {'spec': spec, 'name': name}
+    if tier == 'quick':
+        for n in (65535, 65536):       # the 2-byte / 3-byte reference-width boundary (thorough also has 65 537)
+            yield {'spec': boccases.heap_spec(n), 'name': 'cells=%d' % n}
 
 
 def strat(tier):
